@@ -5,6 +5,7 @@ package vc
 import (
 	"fmt"
 	"go/types"
+	"regexp"
 	"sort"
 	"strings"
 
@@ -233,8 +234,19 @@ func scalarSort(t types.Type) *Sort {
 
 // typeKey: stable textual key of a type (used for heaps and memories).
 func typeKey(t types.Type) string {
-	return types.TypeString(t, func(p *types.Package) string { return p.Path() })
+	s := types.TypeString(t, func(p *types.Package) string { return p.Path() })
+	if strings.Contains(s, "byte") || strings.Contains(s, "rune") {
+		s = aliasRe.ReplaceAllStringFunc(s, func(m string) string {
+			if m == "byte" {
+				return "uint8"
+			}
+			return "int32"
+		})
+	}
+	return s
 }
+
+var aliasRe = regexp.MustCompile(`\b(byte|rune)\b`)
 
 // freshOf creates a fresh symbolic value of type t; lift maps each leaf sort (identity for plain values).
 func freshOf(hint string, t types.Type, lift func(*Sort) *Sort, stable bool) Value {
@@ -342,6 +354,8 @@ type State struct {
 	Loops  map[string]int // visits of loop headers on this path (per frame id)
 	Dead   bool
 	HavocAll int
+	known    map[*Term]bool // lazily built index of PC (not cloned)
+	knownN   int
 }
 
 func NewState() *State {
@@ -382,6 +396,54 @@ func (s *State) Assume(t *Term) {
 		s.Dead = true
 	}
 	s.PC = append(s.PC, t)
+}
+
+// KnownTruth looks a boolean term up among the assumptions of this path (syntactically).
+func (s *State) KnownTruth(t *Term) (val, known bool) {
+	if t == True {
+		return true, true
+	}
+	if t == False {
+		return false, true
+	}
+	if s.known == nil || s.knownN != len(s.PC) {
+		if s.known == nil || s.knownN > len(s.PC) {
+			s.known = map[*Term]bool{}
+			s.knownN = 0
+		}
+		var rec func(a *Term)
+		rec = func(a *Term) {
+			switch a.Op {
+			case "and":
+				for _, x := range a.Args {
+					rec(x)
+				}
+			case "not":
+				s.known[a.Args[0]] = false
+			default:
+				s.known[a] = true
+			}
+		}
+		for _, a := range s.PC[s.knownN:] {
+			rec(a)
+		}
+		s.knownN = len(s.PC)
+	}
+	v, ok := s.known[t]
+	return v, ok
+}
+
+// Simp replaces a boolean term by a constant when its truth value is known on this path.
+func (s *State) Simp(t *Term) *Term {
+	if v, ok := s.KnownTruth(t); ok {
+		return Bool(v)
+	}
+	if t.Op == "not" {
+		if v, ok := s.KnownTruth(t.Args[0]); ok {
+			return Bool(!v)
+		}
+	}
+	return t
 }
 
 func liftRef(s *Sort) *Sort   { return ArraySort(RefSort, s) }
